@@ -306,8 +306,10 @@ class LinearParameterMapping(ParameterMappingBase):
         ]
 
     def combine(self, other: "LinearParameterMapping") -> "LinearParameterMapping":
+        # A parameter shared by both mappings must appear only once in in_params
+        # (dict.fromkeys keeps the first occurrence and the order).
         return LinearParameterMapping._from_immutable_data(
-            in_params=(*self.in_params, *other.in_params),
+            in_params=tuple(dict.fromkeys((*self.in_params, *other.in_params))),
             out_params=(*self.out_params, *other.out_params),
             mapping={
                 **self.mapping,
